@@ -62,6 +62,16 @@ var docs = map[string]string{
 		"0 @F1@ FAM\n1 HUSB @I1@\n1 WIFE @I2@\n1 CHIL @I4@\n1 MARR\n2 DATE 5 May 1825\n2 PLAC Tietown, England\n0 @F2@ FAM\n1 HUSB @I1@\n1 WIFE @I3@\n1 MARR\n2 DATE 6 Jun 1825\n2 PLAC Tietown, England\n",
 }
 
+// hostile: name collisions and their dangling links are a known weakness on the documents built to
+// provoke them; the same finding on an ordinary document is another matter, so the document class
+// is part of the signature.
+func hostile(doc string) string {
+	if doc == "D3" || doc == "D5" {
+		return ":hostile-document-" + doc
+	}
+	return ""
+}
+
 func tail(s string, n int) string {
 	if len(s) > n {
 		return s[len(s)-n:]
@@ -209,7 +219,7 @@ func judgeNames(k kase) (fs []finding) {
 	}
 	for n, c := range names {
 		if c > 1 {
-			add("two-pages-share-a-name:"+pageClass(n), fmt.Sprintf("%d files are named %q", c, n))
+			add("two-pages-share-a-name:"+pageClass(n)+hostile(k.Doc), fmt.Sprintf("%d files are named %q (doc %s)", c, n, k.Doc))
 		}
 	}
 	for _, p := range w.Pages {
@@ -241,7 +251,7 @@ func judgeNames(k kase) (fs []finding) {
 				case strings.HasSuffix(target, ".html"):
 					kind = "page"
 				}
-				add("dangling-link:"+pageClass(p.Name)+"->"+kind, fmt.Sprintf("%s links to %q which is not a generated file (doc %s, mask %d, %s)", p.Name, l, k.Doc, k.Mask, k.Living))
+				add("dangling-link:"+pageClass(p.Name)+"->"+kind+hostile(k.Doc), fmt.Sprintf("%s links to %q which is not a generated file (doc %s, mask %d, %s)", p.Name, l, k.Doc, k.Mask, k.Living))
 			}
 		}
 	}
